@@ -19,7 +19,7 @@ func init() {
 		Patterns: []string{"./ring", "./loser"},
 		Run:      runC01,
 		Explanation: "Decides structural necessary conditions of 'key lookup returns the consistent-hash replica set with its exact quorum slack': (R1) the Operation bitmap: NewOp's extension loop covers every declared InstanceState, encode and decode use the same shifts, the two halves cannot overlap, allStatesRingOperation has every state healthy and no extension bit; (R2) Get and GetWithOptions both return getReplicationSetForKey, whose result is exactly Filter(findInstancesForKey(key, op, …), op, …) under one read-lock hold; " +
-			"(R3) the walk's bookkeeping: a newly seen instance is appended ⇔ the caller's filter (if any) includes it — under no other condition — and the set is extended ⇔ the operation declares that instance's state as extending; the instance examined is the owner of the current token; zone exhaustion counts all instances of the zone; (R4) the default strategy computes the quorum before removing unhealthy instances, over max(RF, walked), fails ⇔ healthy < quorum and returns slack = healthy − quorum. R2 also requires the replication factor given to Filter to be the caller's or the configured value on every path (never a derived quantity); R4 also requires an instance to stay in the set ⇔ InstanceDesc.IsHealthy(op, timeout, now), which is state-accepted ∧ heartbeat-fresh. Also: (R5) the token→owner index is rebuilt from the descriptor on every topology change and never modified (shared with C13.R7). NOT decided: the successor search, walk termination and zone counters arithmetic, the majority formula's value, the consequence for added/removed instances.",
+			"(R3) the walk's bookkeeping: a newly seen instance is appended ⇔ the caller's filter (if any) includes it — under no other condition — and the set is extended ⇔ the operation declares that instance's state as extending; the instance examined is the owner of the current token; zone exhaustion counts all instances of the zone; (R4) the default strategy computes the quorum before removing unhealthy instances, over max(RF, walked), fails ⇔ healthy < quorum and returns slack = healthy − quorum. R2 also requires the replication factor given to Filter to be the caller's or the configured value on every path (never a derived quantity); R4 also requires an instance to stay in the set ⇔ InstanceDesc.IsHealthy(op, timeout, now), which is state-accepted ∧ heartbeat-fresh. Also: (R5) the token→owner index is rebuilt from the descriptor on every topology change and never modified (shared with C13.R7); (R6) every token of the ring reaches the sorted lists the walk searches: the merges that build them drop nothing, 2^32-1 included (shared with C14.R3 and C14.R7). NOT decided: the successor search, walk termination and zone counters arithmetic, the majority formula's value, the consequence for added/removed instances.",
 	}
 }
 
